@@ -16,14 +16,26 @@ pub fn check(r: &RunResult, rep: &mut Report) {
 	}
 	for o in r.outcomes.iter() {
 		if o == "Deadlock" {
-			rep.add(Violation::new("C07", "deadlock", "", "", "the daemon is pending with no wake-up outstanding".into()));
+			rep.add(Violation::new(
+				"C07",
+				"deadlock",
+				"",
+				"",
+				"the daemon is pending with no wake-up outstanding".into(),
+			));
 		}
 	}
 	let atts = common::attempts(w);
 	let n_faults = w.plan.faults.len();
 	let last_fault_seq = last_fault_seq(w);
 	for (ai, a) in atts.iter().enumerate() {
-		let cert_idx = match w.plan.config.certificates.iter().position(|c| toml_emit::cert_id(c) == a.cert) {
+		let cert_idx = match w
+			.plan
+			.config
+			.certificates
+			.iter()
+			.position(|c| toml_emit::cert_id(c) == a.cert)
+		{
 			Some(i) => i,
 			None => continue,
 		};
@@ -35,24 +47,79 @@ pub fn check(r: &RunResult, rep: &mut Report) {
 			let end_seq = a.end.map(|e| e.seq).unwrap_or(u64::MAX);
 			let sendseq = common::tx_send_seq(w);
 			let single = w.plan.config.certificates.len() == 1;
-			let posts: u64 = w.cas.iter().map(|c| c.posts.iter().filter(|p| (p.cert == Some(cert_idx) || (single && p.cert.is_none())) && sendseq.get(&p.tx).map(|s| *s > a.begin.seq && *s < end_seq).unwrap_or(false)).count() as u64).sum();
+			let posts: u64 = w
+				.cas
+				.iter()
+				.map(|c| {
+					c.posts
+						.iter()
+						.filter(|p| {
+							(p.cert == Some(cert_idx) || (single && p.cert.is_none()))
+								&& sendseq
+									.get(&p.tx)
+									.map(|s| *s > a.begin.seq && *s < end_seq)
+									.unwrap_or(false)
+						})
+						.count() as u64
+				})
+				.sum();
 			if posts > bound {
-				rep.add(Violation::new("C07", "attempt_unbounded", "", &common::last_class_in(w, a), format!("{} POSTs in one attempt of {} (the statement's bounds allow at most {})", posts, a.cert, bound)));
+				rep.add(Violation::new(
+					"C07",
+					"attempt_unbounded",
+					"",
+					&common::last_class_in(w, a),
+					format!(
+						"{} POSTs in one attempt of {} (the statement's bounds allow at most {})",
+						posts, a.cert, bound
+					),
+				));
 			}
 		}
 		let end = match a.end {
 			Some(e) => e,
 			None => {
 				// (b) bounded termination: an attempt still open when the run ended by horizon/cap
-				let cut = w.trace.iter().any(|e| e.seq > a.begin.seq && matches!(&e.ev, Ev::Stopped { why } if why == "crash" || why == "stop"));
-				let ended_by_horizon = r.outcomes.iter().any(|o| o.contains("horizon") || o.contains("EventCap"));
+				let cut = w.trace.iter().any(|e| {
+					e.seq > a.begin.seq
+						&& matches!(&e.ev, Ev::Stopped { why } if why == "crash" || why == "stop")
+				});
+				let ended_by_horizon = r
+					.outcomes
+					.iter()
+					.any(|o| o.contains("horizon") || o.contains("EventCap"));
 				if !cut && ended_by_horizon && is_last_open(&atts, ai) {
 					let dur = (w.mono - a.begin.t) / 1_000_000_000;
 					if dur > attempt_time_bound(w, cert_idx) {
-						let orders = w.cas.iter().map(|c| c.orders.iter().filter(|o| o.cert == Some(cert_idx) && o.created_t >= a.begin.t).count()).sum::<usize>();
-						let cause = if orders == 0 && !w.plan.faults.iter().all(|f| f.cert.is_none()) { "never_got_the_endpoint" } else { "" };
+						let orders = w
+							.cas
+							.iter()
+							.map(|c| {
+								c.orders
+									.iter()
+									.filter(|o| {
+										o.cert == Some(cert_idx) && o.created_t >= a.begin.t
+									})
+									.count()
+							})
+							.sum::<usize>();
+						let cause =
+							if orders == 0 && !w.plan.faults.iter().all(|f| f.cert.is_none()) {
+								"never_got_the_endpoint"
+							} else {
+								""
+							};
 						if cause.is_empty() {
-						rep.add(Violation::new("C07", "attempt_not_terminated", cause, common::last_class_in(w, a).as_str(), format!("attempt of {} still running after {} virtual seconds", a.cert, dur)));
+							rep.add(Violation::new(
+								"C07",
+								"attempt_not_terminated",
+								cause,
+								common::last_class_in(w, a).as_str(),
+								format!(
+									"attempt of {} still running after {} virtual seconds",
+									a.cert, dur
+								),
+							));
 						}
 					}
 				}
@@ -62,45 +129,93 @@ pub fn check(r: &RunResult, rep: &mut Report) {
 		rep.nontrivial = rep.nontrivial || a.ok == Some(false);
 		let dur = (end.t - a.begin.t) / 1_000_000_000;
 		if dur > attempt_time_bound(w, cert_idx) {
-			rep.add(Violation::new("C07", "attempt_too_long", "", &common::last_class_in(w, a), format!("{} s", dur)));
+			rep.add(Violation::new(
+				"C07",
+				"attempt_too_long",
+				"",
+				&common::last_class_in(w, a),
+				format!("{} s", dur),
+			));
 		}
 		// (c) post-operation hooks: exactly one batch per attempt, faithful report
 		let cert = &w.plan.config.certificates[cert_idx];
 		let hooks = super::super::expect::expand_hooks(&w.plan.config, &cert.hooks);
-		let post_hooks: Vec<_> = hooks.iter().filter(|h| h.types.iter().any(|t| t == "post-operation")).collect();
+		let post_hooks: Vec<_> = hooks
+			.iter()
+			.filter(|h| h.types.iter().any(|t| t == "post-operation"))
+			.collect();
 		let mut seen: Vec<(String, Vec<String>)> = vec![];
 		for e in w.trace.iter() {
 			if e.seq <= a.begin.seq || e.seq >= end.seq {
 				continue;
 			}
 			if let Ev::HookSpawn { rec, .. } = &e.ev {
-				if common::hook_arg(&rec.argv, "is_success").map(|v| !v.is_empty()).unwrap_or(false) && common::hook_arg(&rec.argv, "status").is_some() {
+				if common::hook_arg(&rec.argv, "is_success")
+					.map(|v| !v.is_empty())
+					.unwrap_or(false)
+					&& common::hook_arg(&rec.argv, "status").is_some()
+				{
 					// a post-operation invocation of THIS certificate?
 					let ids = common::hook_arg(&rec.argv, "identifiers").unwrap_or("");
-					let mine = super::super::expect::cert_wire_idents(cert).iter().map(|(_, v)| v.clone()).collect::<Vec<_>>().join(",");
+					let mine = super::super::expect::cert_wire_idents(cert)
+						.iter()
+						.map(|(_, v)| v.clone())
+						.collect::<Vec<_>>()
+						.join(",");
 					if ids == mine {
-						seen.push((common::hook_arg(&rec.argv, "hook").unwrap_or("").to_string(), rec.argv.clone()));
+						seen.push((
+							common::hook_arg(&rec.argv, "hook")
+								.unwrap_or("")
+								.to_string(),
+							rec.argv.clone(),
+						));
 					}
 				}
 			}
 		}
 		if !post_hooks.is_empty() {
 			// the batch may be cut short by a hook that fails hard (documented abort rule)
-			let hard_fail_possible = post_hooks.iter().any(|h| !h.exits.is_empty()) || w.plan.faults.iter().any(|f| f.site == "proc");
+			let hard_fail_possible = post_hooks.iter().any(|h| !h.exits.is_empty())
+				|| w.plan.faults.iter().any(|f| f.site == "proc");
 			let want: Vec<String> = post_hooks.iter().map(|h| h.name.clone()).collect();
 			let got: Vec<String> = seen.iter().map(|s| s.0.clone()).collect();
-			let spawn_failed = w.trace.iter().any(|e| e.seq > a.begin.seq && e.seq < end.seq && matches!(&e.ev, Ev::SpawnFail { .. }));
-			let ok = if hard_fail_possible { (!got.is_empty() || spawn_failed) && want.starts_with(&got) } else { got == want };
+			let spawn_failed = w.trace.iter().any(|e| {
+				e.seq > a.begin.seq && e.seq < end.seq && matches!(&e.ev, Ev::SpawnFail { .. })
+			});
+			let ok = if hard_fail_possible {
+				(!got.is_empty() || spawn_failed) && want.starts_with(&got)
+			} else {
+				got == want
+			};
 			if !ok {
-				let kind = if got.len() > want.len() { "post_operation_more_than_once" } else { "post_operation_missing" };
-				rep.add(Violation::new("C07", kind, "", &common::last_class_in(w, a), format!("expected post-operation hooks {:?}, ran {:?}", want, got)));
+				let kind = if got.len() > want.len() {
+					"post_operation_more_than_once"
+				} else {
+					"post_operation_missing"
+				};
+				rep.add(Violation::new(
+					"C07",
+					kind,
+					"",
+					&common::last_class_in(w, a),
+					format!("expected post-operation hooks {:?}, ran {:?}", want, got),
+				));
 			}
 			for (_, argv) in seen.iter() {
 				let is_success = common::hook_arg(argv, "is_success").unwrap_or("");
 				let status = common::hook_arg(argv, "status").unwrap_or("");
 				let reported_ok = is_success == "true";
 				if reported_ok != (a.ok == Some(true)) {
-					rep.add(Violation::new("C07", "report_disagrees_with_outcome", "", "", format!("is_success={} but the attempt outcome was {:?}", is_success, a.ok)));
+					rep.add(Violation::new(
+						"C07",
+						"report_disagrees_with_outcome",
+						"",
+						"",
+						format!(
+							"is_success={} but the attempt outcome was {:?}",
+							is_success, a.ok
+						),
+					));
 				}
 				if reported_ok {
 					// success only when the new certificate and key have been installed
@@ -109,7 +224,12 @@ pub fn check(r: &RunResult, rep: &mut Report) {
 						_ => continue,
 					};
 					let issued_here = issued_in_attempt(w, a, cert_idx);
-					let installed = snap.crt_present && snap.crt_parses && snap.matches && issued_here.iter().any(|pem| super::super::util::sha256_hex(pem.as_bytes()) == snap.crt_hash || pem_prefix_matches(pem, &snap));
+					let installed = snap.crt_present
+						&& snap.crt_parses && snap.matches
+						&& issued_here.iter().any(|pem| {
+							super::super::util::sha256_hex(pem.as_bytes()) == snap.crt_hash
+								|| pem_prefix_matches(pem, &snap)
+						});
 					if !installed {
 						let cause = if !snap.crt_parses {
 							"certificate_unparseable"
@@ -130,16 +250,37 @@ pub fn check(r: &RunResult, rep: &mut Report) {
 					}
 				} else {
 					if status.is_empty() || status == "success" {
-						rep.add(Violation::new("C07", "failure_without_error_text", "", &common::last_class_in(w, a), format!("status={:?}", status)));
+						rep.add(Violation::new(
+							"C07",
+							"failure_without_error_text",
+							"",
+							&common::last_class_in(w, a),
+							format!("status={:?}", status),
+						));
 					}
 					// the injected problem's detail is reported (single unrecoverable error answers)
 					if n_faults == 1 {
-						if let FaultKind::Acme { typ, detail: Some(d), .. } = &w.plan.faults[0].kind {
+						if let FaultKind::Acme {
+							typ,
+							detail: Some(d),
+							..
+						} = &w.plan.faults[0].kind
+						{
 							let class = &w.plan.faults[0].class;
 							let is_post = class != "directory" && class != "newNonce";
 							let this_attempt_hit = fault_hit_in(w, a);
-							if is_post && this_attempt_hit && !RECOVERABLE.contains(&typ.as_str()) && typ != "accountDoesNotExist" && !status.contains(d.as_str()) {
-								rep.add(Violation::new("C07", "error_text_lost", typ, class, format!("status={:?} lacks the CA's detail {:?}", status, d)));
+							if is_post
+								&& this_attempt_hit && !RECOVERABLE.contains(&typ.as_str())
+								&& typ != "accountDoesNotExist"
+								&& !status.contains(d.as_str())
+							{
+								rep.add(Violation::new(
+									"C07",
+									"error_text_lost",
+									typ,
+									class,
+									format!("status={:?} lacks the CA's detail {:?}", status, d),
+								));
 							}
 						}
 					}
@@ -148,7 +289,11 @@ pub fn check(r: &RunResult, rep: &mut Report) {
 		}
 		// (d) after a failure, at least a second passes before the next attempt of that certificate
 		if a.ok == Some(false) {
-			if let Some(next) = atts.iter().skip(ai + 1).find(|n| n.cert == a.cert && n.boot == a.boot) {
+			if let Some(next) = atts
+				.iter()
+				.skip(ai + 1)
+				.find(|n| n.cert == a.cert && n.boot == a.boot)
+			{
 				let gap = next.begin.t.saturating_sub(end.t);
 				rep.probe("c07.retries_after_failure", 1);
 				if gap < 1_000_000_000 {
@@ -156,18 +301,50 @@ pub fn check(r: &RunResult, rep: &mut Report) {
 						Ev::AttemptBegin { snap, .. } => snap.clone(),
 						_ => continue,
 					};
-					let cause = if !snap.crt_present || !snap.pk_present { "files_missing" } else { "renewal_due" };
-					rep.add(Violation::new("C07", "no_pause_after_failure", cause, "", format!("next attempt of {} began {} ns after the failed one ended", a.cert, gap)));
+					let cause = if !snap.crt_present || !snap.pk_present {
+						"files_missing"
+					} else {
+						"renewal_due"
+					};
+					rep.add(Violation::new(
+						"C07",
+						"no_pause_after_failure",
+						cause,
+						"",
+						format!(
+							"next attempt of {} began {} ns after the failed one ended",
+							a.cert, gap
+						),
+					));
 				}
 			}
 		}
 	}
 	// (e) bounded liveness once faults stop: every certificate not targeted by a permanent fault is
 	// issued within the run's budget (the plan's Run ops are sized for it)
-	let permanent: Vec<usize> = w.plan.faults.iter().filter(|f| f.count >= 1_000_000).filter_map(|f| f.cert).collect();
-	let any_permanent_global = w.plan.faults.iter().any(|f| f.count >= 1_000_000 && f.cert.is_none());
-	let hooks_fail = w.plan.config.hooks.iter().any(|h| h.exits.iter().any(|c| *c != 0) && h.allow_failure != Some(true));
-	if !any_permanent_global && !hooks_fail && r.outcomes.iter().all(|o| !o.contains("CrashPoint")) && w.plan.family != "F6" {
+	let permanent: Vec<usize> = w
+		.plan
+		.faults
+		.iter()
+		.filter(|f| f.count >= 1_000_000)
+		.filter_map(|f| f.cert)
+		.collect();
+	let any_permanent_global = w
+		.plan
+		.faults
+		.iter()
+		.any(|f| f.count >= 1_000_000 && f.cert.is_none());
+	let hooks_fail = w
+		.plan
+		.config
+		.hooks
+		.iter()
+		.any(|h| h.exits.iter().any(|c| *c != 0) && h.allow_failure != Some(true));
+	if !any_permanent_global
+		&& !hooks_fail
+		&& r.outcomes.iter().all(|o| !o.contains("CrashPoint"))
+		&& w.plan.family != "F6"
+	{
 		for (i, c) in w.plan.config.certificates.iter().enumerate() {
 			if permanent.contains(&i) {
 				continue;
@@ -178,12 +355,43 @@ pub fn check(r: &RunResult, rep: &mut Report) {
 			// "once faults stop": judged only if at least two whole attempts ran after the last fault
 			// that can have touched this certificate (permanent faults on OTHER certificates go on)
 			let last = last_fault_seq_for(w, i);
-			let clean_attempts = atts.iter().filter(|a| a.cert == id && a.begin.seq > last && a.end.is_some()).count();
-			let stuck_since_before = atts.iter().any(|a| a.cert == id && a.end.is_none() && r.outcomes.iter().any(|o| o.contains("horizon")));
-			if !ok_any && !never_attempted && expects_liveness(w) && (clean_attempts >= 2 || stuck_since_before) {
-				let orders = w.cas.iter().map(|c| c.orders.iter().filter(|o| o.cert == Some(i)).count()).sum::<usize>();
-				let phase = if orders == 0 { "never_got_the_endpoint" } else { "" };
-				rep.add(Violation::new("C07", "healthy_certificate_not_issued", if permanent.is_empty() { "after_faults_stopped" } else { "other_certificate_failing" }, phase, format!("{} was never issued within the run's budget ({} virtual s)", id, w.mono / 1_000_000_000)));
+			let clean_attempts = atts
+				.iter()
+				.filter(|a| a.cert == id && a.begin.seq > last && a.end.is_some())
+				.count();
+			let stuck_since_before = atts.iter().any(|a| {
+				a.cert == id && a.end.is_none() && r.outcomes.iter().any(|o| o.contains("horizon"))
+			});
+			if !ok_any
+				&& !never_attempted
+				&& expects_liveness(w)
+				&& (clean_attempts >= 2 || stuck_since_before)
+			{
+				let orders = w
+					.cas
+					.iter()
+					.map(|c| c.orders.iter().filter(|o| o.cert == Some(i)).count())
+					.sum::<usize>();
+				let phase = if orders == 0 {
+					"never_got_the_endpoint"
+				} else {
+					""
+				};
+				rep.add(Violation::new(
+					"C07",
+					"healthy_certificate_not_issued",
+					if permanent.is_empty() {
+						"after_faults_stopped"
+					} else {
+						"other_certificate_failing"
+					},
+					phase,
+					format!(
+						"{} was never issued within the run's budget ({} virtual s)",
+						id,
+						w.mono / 1_000_000_000
+					),
+				));
 			}
 		}
 	}
@@ -195,7 +403,10 @@ fn expects_liveness(w: &super::super::world::World) -> bool {
 	// authorization statuses, never-ready objects, SAN games) do not promise issuance
 	w.cas.iter().all(|c| {
 		c.knobs.validation.iter().all(|v| v == "valid")
-			&& c.knobs.authz_status.iter().all(|s| s.is_empty() || s == "pending" || s == "valid")
+			&& c.knobs
+				.authz_status
+				.iter()
+				.all(|s| s.is_empty() || s == "pending" || s == "valid")
 			&& c.knobs.polls_authz < 19
 			&& c.knobs.polls_ready < 19
 			&& c.knobs.polls_valid < 19
@@ -213,7 +424,9 @@ fn last_fault_seq(w: &super::super::world::World) -> u64 {
 		match &e.ev {
 			Ev::NetDeliver { fault: Some(_), .. } => last = e.seq,
 			Ev::HookExit { code, .. } if *code != Some(0) => last = e.seq,
-			Ev::FsOpen { err: Some(_), .. } | Ev::FsWrite { err: Some(_), .. } | Ev::FsRead { err: Some(_), .. } => last = e.seq,
+			Ev::FsOpen { err: Some(_), .. }
+			| Ev::FsWrite { err: Some(_), .. }
+			| Ev::FsRead { err: Some(_), .. } => last = e.seq,
 			Ev::SpawnFail { .. } => last = e.seq,
 			_ => {}
 		}
@@ -223,7 +436,9 @@ fn last_fault_seq(w: &super::super::world::World) -> u64 {
 
 fn fault_hit_in(w: &super::super::world::World, a: &common::Attempt) -> bool {
 	let end = a.end.map(|e| e.seq).unwrap_or(u64::MAX);
-	w.trace.iter().any(|e| e.seq > a.begin.seq && e.seq < end && matches!(&e.ev, Ev::NetDeliver { fault: Some(_), .. }))
+	w.trace.iter().any(|e| {
+		e.seq > a.begin.seq && e.seq < end && matches!(&e.ev, Ev::NetDeliver { fault: Some(_), .. })
+	})
 }
 
 /// generous bound derived from the statement's own numbers: every request at most 10 transmissions
@@ -242,11 +457,20 @@ fn attempt_time_bound(w: &super::super::world::World, cert_idx: usize) -> u128 {
 		}
 	}
 	let others = w.plan.config.certificates.len() as u128;
-	(per_request * requests + hooks + delays) * others + if w.plan.config.rate_limits.is_empty() { 0 } else { limiter * requests }
+	(per_request * requests + hooks + delays) * others
+		+ if w.plan.config.rate_limits.is_empty() {
+			0
+		} else {
+			limiter * requests
+		}
 }
 
 /// PEM bodies the CA issued for this certificate's orders during the attempt
-fn issued_in_attempt(w: &super::super::world::World, a: &common::Attempt, cert_idx: usize) -> Vec<String> {
+fn issued_in_attempt(
+	w: &super::super::world::World,
+	a: &common::Attempt,
+	cert_idx: usize,
+) -> Vec<String> {
 	let end_t = a.end.map(|e| e.t).unwrap_or(u128::MAX);
 	let mut out = vec![];
 	for ca in w.cas.iter() {
@@ -270,14 +494,25 @@ fn last_fault_seq_for(w: &super::super::world::World, idx: usize) -> u64 {
 	let mut last = 0;
 	for e in w.trace.iter() {
 		match &e.ev {
-			Ev::NetDeliver { tx, fault: Some(_), ca, .. } => {
-				let cert = w.cas.get(*ca).and_then(|c| c.posts.iter().find(|p| p.tx == *tx)).and_then(|p| p.cert);
+			Ev::NetDeliver {
+				tx,
+				fault: Some(_),
+				ca,
+				..
+			} => {
+				let cert = w
+					.cas
+					.get(*ca)
+					.and_then(|c| c.posts.iter().find(|p| p.tx == *tx))
+					.and_then(|p| p.cert);
 				if cert.is_none() || cert == Some(idx) {
 					last = e.seq;
 				}
 			}
 			Ev::HookExit { code, .. } if *code != Some(0) => last = e.seq,
-			Ev::FsOpen { err: Some(_), .. } | Ev::FsWrite { err: Some(_), .. } | Ev::FsRead { err: Some(_), .. } => last = e.seq,
+			Ev::FsOpen { err: Some(_), .. }
+			| Ev::FsWrite { err: Some(_), .. }
+			| Ev::FsRead { err: Some(_), .. } => last = e.seq,
 			Ev::SpawnFail { .. } => last = e.seq,
 			_ => {}
 		}
